@@ -90,19 +90,26 @@ def check_solve_t(case):
     positions = [(t, 'int') for t in list(range(n)) + list(range(-n, 0))]
     # the same positions as NumPy integers (what np.arange / np.flatnonzero hand out), at the ends of the span
     positions += [(t, 'np.int64') for t in (0, L - 1, L, n - 1 - K, n - K, n - 1, -1, -n) if -n <= t < n]
+    # ... and on an object whose statuses already say "solved" everywhere (as after reindexing a solved model)
+    positions += [(t, 'status-solved') for t in (0, L - 1, n - K, n - 1, -1, -n) if -n <= t < n]
     for t, ttype in positions:
         T = t + n if t < 0 else t
         feasible = L <= T <= n - 1 - K
         m, data = fresh(M, ref, n, bases)
+        if ttype == 'status-solved':
+            m.status = '.'
+            m.iterations = 1
         log = []
         install(m, ref.names, log)
-        out = R.quiet_call(attempt, m.solve_t, np.int64(t) if ttype != 'int' else t, **SOLVE_KW)
+        out = R.quiet_call(attempt, m.solve_t, np.int64(t) if ttype == 'np.int64' else t, **SOLVE_KW)
         uninstall(m, ref.names)
         detail = f'{text!r} LAGS={L} LEADS={K} n={n} t={ttype}({t}) (position {T})'
         edge = T in (L, n - 1 - K) or not feasible
         if L + K >= 1 and edge:
             res.nontrivial = True
         side = 'front' if T < L else 'back'
+        if ttype == 'status-solved' and feasible:
+            continue
         if not feasible:
             res.tag('infeasible-' + side)
             if out.ok:
